@@ -32,6 +32,7 @@ func init() {
 		"fmt.Sprintf": inSprintf,
 		"fmt.Sprint":  inSprintf,
 		"errors.Is":   inErrorsIs,
+		"errors.As":   inErrorsAs,
 
 		"(*sync.Mutex).Lock":      inLock,
 		"(*sync.Mutex).Unlock":    inUnlock,
@@ -49,13 +50,14 @@ func init() {
 		"strings.Cut":                 inStringsCut,
 		"strings.Index":               inStringsIndex,
 
-		"reflect.TypeOf":           inReflectTypeOf,
-		"reflect.MakeMap":          inReflectMakeMap,
-		"(reflect.Value).Pointer":  inReflectValuePointer,
-		"(reflect.StructTag).Get":  inStructTagGet,
+		"reflect.TypeOf":             inReflectTypeOf,
+		"reflect.MakeMap":            inReflectMakeMap,
+		"(reflect.Value).Pointer":    inReflectValuePointer,
+		"(reflect.StructTag).Get":    inStructTagGet,
 		"(reflect.StructTag).Lookup": inStructTagLookup,
 	}
 	registerTimeIntrinsics()
+	registerAtomicIntrinsics()
 }
 
 func (r *Run) intrinsic(fn *ssa.Function, args []Value) (Value, bool) {
@@ -74,6 +76,15 @@ func (r *Run) intrinsic(fn *ssa.Function, args []Value) (Value, bool) {
 		}
 	}
 	if stub := r.eng.stubFor(fn); stub != nil {
+		if strings.HasPrefix(stub.Name(), "verifStub_sync_") {
+			// models of concurrency-safe containers: their internal state is not
+			// subject to the ownership monitor
+			mon := r.monitor
+			r.monitor = false
+			res := r.callFn(stub, args, nil, fn.Pos())
+			r.monitor = mon
+			return res, true
+		}
 		return r.callFn(stub, args, nil, fn.Pos()), true
 	}
 	return nil, false
@@ -688,6 +699,65 @@ func (r *Run) valueEqIface(a, b Iface) bool {
 		return false
 	}
 	return r.branch(r.valueEq(a.V, b.V, a.T))
+}
+
+func (r *Run) errAs(err Iface, tp Ptr, elem types.Type, depth int) bool {
+	if err.T == nil {
+		return false
+	}
+	if depth > 16 {
+		r.engineFail("errors.As: chain too deep")
+	}
+	if it, ok := under(elem).(*types.Interface); ok {
+		if r.implements(err.T, it) {
+			r.storeT(tp, elem, err)
+			return true
+		}
+	} else if types.Identical(err.T, elem) {
+		r.storeT(tp, elem, err.V)
+		return true
+	}
+	if sel := r.hasMethod(err.T, "As"); sel != nil {
+		m := r.eng.prog.MethodValue(sel)
+		res := r.callFn(m, []Value{err.V, Iface{T: types.NewPointer(elem), V: tp}}, nil, 0)
+		if r.branch(res.(*Term)) {
+			return true
+		}
+	}
+	if sel := r.hasMethod(err.T, "Unwrap"); sel != nil {
+		m := r.eng.prog.MethodValue(sel)
+		res := r.callFn(m, []Value{err.V}, nil, 0)
+		switch x := res.(type) {
+		case Iface:
+			return r.errAs(x, tp, elem, depth+1)
+		case SliceV:
+			for _, e := range r.sliceElems(x, types.Universe.Lookup("error").Type()) {
+				if r.errAs(e.(Iface), tp, elem, depth+1) {
+					return true
+				}
+			}
+		}
+	}
+	return false
+}
+
+func inErrorsAs(r *Run, fn *ssa.Function, args []Value) Value {
+	err, target := args[0].(Iface), args[1].(Iface)
+	if target.T == nil {
+		r.fail("panic", "errors: target cannot be nil", "")
+	}
+	pt, ok := under(target.T).(*types.Pointer)
+	if !ok || r.asPtr(target.V).IsNil() {
+		r.fail("panic", "errors: target must be a non-nil pointer", "")
+	}
+	elem := pt.Elem()
+	if _, isIface := under(elem).(*types.Interface); !isIface {
+		errT := types.Universe.Lookup("error").Type().Underlying().(*types.Interface)
+		if !r.implements(elem, errT) {
+			r.fail("panic", "errors: *target must be interface or implement error", "")
+		}
+	}
+	return r.ts.BoolConst(r.errAs(err, r.asPtr(target.V), elem, 0))
 }
 
 func inErrorsIs(r *Run, fn *ssa.Function, args []Value) Value {
